@@ -615,6 +615,13 @@ theorem setCurrentOk_current (s : JobList) (i : Nat) (j : Job) (hg : gets s.entr
       simp [JobList.currentJob, hg]
     · simp [hi, JobList.currentJob, hg]
 
+/-- an argument that starts with `%` is the first operand -/
+theorem parseArgs_percent (allowed : List Char) (cs : Str) (rest : List Str) :
+    parseArgs allowed (('%' :: cs) :: rest) = some ([], ('%' :: cs) :: rest) := by
+  cases cs with
+  | nil => rfl
+  | cons c cs => simp [parseArgs]
+
 theorem mem_matchingIdx (es : Slab) (p : Job → Bool) (off i : Nat) :
     i ∈ matchingIdx es p off ↔ off ≤ i ∧ ∃ j, gets es (i - off) = some j ∧ p j = true := by
   induction es generalizing off with
